@@ -289,7 +289,18 @@ func genScenario(t *rapid.T) *scenario {
 		if f.pipeTag {
 			sep = "|"
 		}
-		switch rapid.IntRange(0, 2).Draw(t, "tagname") {
+		switch rapid.IntRange(0, 3).Draw(t, "tagname") {
+		case 3:
+			// names a program may well choose, and that sit close to the built-in flags: one-letter names (-h for a
+			// host, -c, -v), prefixes and near-misses of help and config
+			short := []string{"h", "c", "v", "n", "x", "he", "hel", "helper", "conf", "cfg", "configs", "H", "Help", "?"}
+			f.tagName = short[(i*5+rapid.IntRange(0, len(short)-1).Draw(t, "short"))%len(short)]
+			for _, g := range sc.fields {
+				if g.flagName == f.tagName {
+					f.tagName = fmt.Sprintf("f%d", i) // no duplicates within a struct
+				}
+			}
+			f.flagName = f.tagName
 		case 0:
 			f.tagName = ""
 			f.flagName = strings.ToLower(f.goName)
